@@ -17,6 +17,8 @@
 import FwdVerif.Lemmas.C11Progress
 import FwdVerif.Lemmas.C11Ctx
 import FwdVerif.Lemmas.C11Tunnel
+import FwdVerif.Lemmas.C11Late
+import FwdVerif.Lemmas.C11Group
 
 namespace FwdVerif
 namespace C11
@@ -1345,6 +1347,345 @@ theorem c11_empty_means_all_variant_full_false : ¬ c11_empty_means_all_variant_
   have := h _ s hs hv.1
   rw [hv.2.1, hv.2.2] at this
   exact this rfl
+
+/-! ## K. Which connections a success of `Shutdown` speaks about: the ones registered with the drain
+
+  "Shutdown reports success only once every connection that was being served has finished and been closed
+  (connections accepted in the meantime are closed without service)".  `Shutdown` takes `connsMu` first and keeps it
+  until it returns; `handleLoop` registers a connection (map entry and counter) under `connsMu` as its first step.  A
+  connection that `Accept` returned just before the shutdown, and whose `handleLoop` goroutine comes to `connsMu.Lock()`
+  only after `Shutdown` took it, is NOT counted by the drain: `Shutdown` can return nil with that socket open.  It is
+  one of the connections "accepted in the meantime": when its handler gets the mutex — after the return — it registers
+  with `closing` set, reads nothing and closes the socket.  The success speaks about the connections that had
+  registered before the call took the mutex; every one of THOSE is closed when it returns nil. -/
+
+/-- at `return nil` a socket that is still open belongs to a connection that has NOT registered: it does not exist
+    yet, sits in the backlog, was refused or reset — or `Serve` has accepted it and its `handleLoop` goroutine has not
+    got `connsMu` (it cannot: the call holds it) -/
+theorem c11_shutdown_nil_open_socket_not_registered {s : State} (h : Reachable s) (k : CallId)
+    (hs : (s.shuts k).pc = .retNil) (c : ConnId) (ho : (s.conns c).sockClosed = false) :
+    (s.conns c).pc = .absent ∨ (s.conns c).pc = .backlog ∨ (s.conns c).pc = .reset ∨ (s.conns c).pc = .refused ∨
+      (s.conns c).pc = .accepted ∨ (s.conns c).pc = .waitingForLock := by
+  have hi := inv_reachable h
+  have hlk : s.lock = .shutdown k := (hi.lockShut k).mpr (by rw [hs]; rfl)
+  have hnl : holdsLock (s.conns c).pc = false := by
+    cases hh : holdsLock (s.conns c).pc with
+    | false => rfl
+    | true => have := (hi.lockConn c).mp hh; rw [hlk] at this; cases this
+  cases hp : preReg (s.conns c).pc with
+  | false =>
+    have := c11_shutdown_nil_served_closed h k hs c hp
+    rw [ho] at this; cases this
+  | true =>
+    revert hp hnl
+    cases (s.conns c).pc <;> simp [preReg, holdsLock]
+
+/-- a connection that has registered — in particular: that had registered before the call of `Shutdown` took the
+    mutex — stays registered, so whenever a call of `Shutdown` later comes to `return nil` its socket is closed, its
+    handler past the decrement, its `conn.Close()` returned -/
+theorem c11_registered_before_drain_closed_at_nil {s s' : State} {as : List Action} (h : Reachable s) (c : ConnId)
+    (hp : preReg (s.conns c).pc = false) (hr : run s as = some s') (k : CallId) (hs : (s'.shuts k).pc = .retNil) :
+    (s'.conns c).sockClosed = true ∧ pastDec (s'.conns c).pc = true ∧
+      (s'.conns c).pc ≠ .deferredClose ∧ (s'.conns c).pc ≠ .closingSock :=
+  c11_shutdown_nil_implies_all_closes_completed (reachable_run h hr) k hs c (run_registered_stays h hr c hp)
+
+/-- a connection that has not registered when `closing` is set — accepted in the meantime, or accepted before and
+    not yet at its registration — is never served, whatever happens later: it reads no request, nothing of it reaches
+    an origin, and it is only ever unregistered, at the first check, or on the closing path -/
+theorem c11_registered_after_drain_began_never_served {s s' : State} {as : List Action} (h : Reachable s)
+    (hcl : s.closing = true) (c : ConnId) (hp : preReg (s.conns c).pc = true) (hr : run s as = some s') :
+    (s'.conns c).reads = 0 ∧ (s'.conns c).forwards = 0 ∧
+      (preReg (s'.conns c).pc = true ∨ ((s'.conns c).regClosing = true ∧ noService (s'.conns c).pc = true)) := by
+  have hl := ((inv_reachable (reachable_run h hr)).loc c)
+  rcases run_late hr hcl c (Or.inl hp) with h1 | h1
+  · exact ⟨(hl.pre h1).2.2.1, (hl.pre h1).2.2.2, Or.inl h1⟩
+  · exact ⟨(hl.late h1).1, (hl.late h1).2.1, Or.inr ⟨h1, (hl.late h1).2.2⟩⟩
+
+/-- connection 0 is returned by `Accept` and its goroutine is on its way to `connsMu.Lock()`; connection 1 has a
+    request at its origin; `Shutdown` takes the mutex, the exchange of connection 1 completes and its socket is
+    closed, the poll finds the counter at 0 -/
+def acceptHeld : List Action :=
+  [.connect 0 false, .serveCheck, .accept 0] ++ openConn 1 ++ toOrigin 1 {} ++ [.conn 0 .lockReq] ++ beginShutdown ++
+    [.shutPoll 0, .send 0 {}, .originAnswer 1, .conn 1 .respReady, .conn 1 .writeHead, .conn 1 .writeDone,
+     .conn 1 .closeStart, .conn 1 .closeDone, .conn 1 .counterDec, .shutTimer 0, .shutPoll 0]
+
+/-- WITNESS (the code itself, no variant): `Shutdown` returns nil to its caller while the socket of connection 0 —
+    accepted before the call — is open: its handler waits for the mutex the call holds.  The served connection is
+    closed.  After the return the handler gets the mutex, registers marked, does not read the request that waits on
+    the socket and closes it: "closed without service". -/
+theorem c11_accept_held_witness :
+    -- at `return nil`: the served connection closed, the held one open and unregistered; it cannot get the mutex
+    (run init acceptHeld).map (fun s => ((s.shuts 0).pc, s.counter, (s.conns 1).sockClosed, (s.conns 0).pc,
+        (s.conns 0).sockClosed)) = some (.retNil, 0, true, .waitingForLock, false) ∧
+    (run init (acceptHeld ++ [.conn 0 .lockAcq])).isSome = false ∧
+    -- the caller sees nil; the socket is still open
+    (run init (acceptHeld ++ [.shutUnlock 0, .shutdownRet 0 none])).map (fun s => ((s.shuts 0).pc, (s.conns 0).pc,
+        (s.conns 0).sockClosed)) = some (.doneNil, .waitingForLock, false) ∧
+    -- … and is closed right after, its request unread
+    (run init (acceptHeld ++ [.shutUnlock 0, .shutdownRet 0 none, .conn 0 .lockAcq, .conn 0 .insert, .conn 0 .counterAdd,
+        .conn 0 .unlockReg, .conn 0 .check0, .conn 0 .closeStart, .conn 0 .closeDone, .closedSeen 0, .conn 0 .counterDec,
+        .conn 0 .lockAcqU, .conn 0 .delete, .conn 0 .unlockU])).map (fun s => ((s.conns 0).pc, (s.conns 0).sockClosed,
+        (s.conns 0).regClosing, (s.conns 0).reads, (s.conns 0).pending.length)) =
+      some (.unregistered, true, true, 0, 1) ∧
+    -- it cannot be served instead
+    (run init (acceptHeld ++ [.shutUnlock 0, .shutdownRet 0 none, .conn 0 .lockAcq, .conn 0 .insert, .conn 0 .counterAdd,
+        .conn 0 .unlockReg, .conn 0 .check0, .conn 0 .firstByte])).isSome = false := by
+  refine ⟨by decide, by decide, by decide, by decide, by decide⟩
+
+-- non-vacuity of K: the state at `return nil` of `acceptHeld` is reachable, connection 1 was registered before
+-- the call, connection 0 not
+example : ∃ s, Reachable s ∧ (s.shuts 0).pc = .retNil ∧ (s.conns 0).sockClosed = false ∧
+    preReg (s.conns 1).pc = false := by
+  have hsome : (run init acceptHeld).isSome = true := by decide
+  obtain ⟨s, hs⟩ := Option.isSome_iff_exists.mp hsome
+  have hv : (run init acceptHeld).map (fun s => ((s.shuts 0).pc, (s.conns 0).sockClosed, preReg (s.conns 1).pc)) =
+      some (.retNil, false, false) := by decide
+  rw [hs] at hv
+  simp only [Option.map_some, Option.some.injEq, Prod.mk.injEq] at hv
+  exact ⟨s, reachable_run Reachable.init hs, hv.1, hv.2.1, hv.2.2⟩
+
+/-! ## L. The host: `command/run` runs the proxy inside a `runctx.Group` and requests the shutdown by a SIGNAL
+
+  `Model/C11Group.lean`.  `forwarder run` composes `runctx.NewGroup(proxy.Run, apiServer.Run, …).RunContext`: the first
+  signal of `NotifySignals` cancels the context every member runs with — that is the request to shut down gracefully —,
+  the grace-period context of the drain is built by `HTTPProxy.run` only afterwards (so only a SECOND signal of
+  `ShutdownSignals` ends the drain), and `RunContext` returns — the process exits — only when every member has returned.
+  Both facts carry the property's clauses at the level of the process: "every exchange whose request has already reached
+  its origin completes normally" and "Shutdown reports success only once every connection that was being served has
+  finished and been closed". -/
+
+/-- the request of the process's graceful shutdown: the proxy has one request at its origin, the signal arrives, `run`
+    closes the listeners and calls `Shutdown` with the grace-period context -/
+def signalWithRequestAtOrigin : List GAction :=
+  (openConn 0 ++ toOrigin 0 {}).map .base ++ [.signal 10] ++
+    [.base .runCloseListeners, .base (.runShutdown 0), .base (.shutLock 0), .base (.shutCloseCh 0), .base (.shutPoll 0)]
+
+/-- the exchange completes, the connection is closed, `Shutdown` returns nil, `run` returns -/
+def drainCompletes : List GAction :=
+  [.base (.originAnswer 0), .base (.conn 0 .respReady), .base (.conn 0 .writeHead), .base (.conn 0 .writeDone),
+   .base (.conn 0 .closeStart), .base (.conn 0 .closeDone), .base (.conn 0 .counterDec), .base (.shutTimer 0),
+   .base (.shutPoll 0), .base (.shutUnlock 0), .base (.runAfterShutdown 0), .base .runRet]
+
+/-- what the examples look at -/
+def gview (g : GState) : RPC × Option Why × PC × Bool × Bool :=
+  (g.base.runner, (g.base.shuts 0).done, (g.base.conns 0).pc, (g.base.conns 0).sockClosed, g.groupRet)
+
+/-- … and: the responses written in full on connection 0, the deliveries that reached a live grace-period context -/
+def gview2 (g : GState) : List Bool × Nat := ((g.base.conns 0).unseen, g.graceHits)
+
+/-- `RunContext` returns only after every member has returned: the proxy's `run` — i.e. after its drain, and after its
+    `Close` if the drain was ended from outside — and every companion -/
+theorem c11_group_returns_after_every_member {g : GState} (h : GReachable g) (hr : g.groupRet = true) :
+    g.base.runner = .finished ∧ ∀ i, i < g.members → g.mret i = true :=
+  (ginv_reachable h).ret hr
+
+/-- … the step that returns is enabled by nothing less, and touches nothing of the proxy -/
+theorem c11_group_return_needs_every_member {g g' : GState} (hst : gstep g .groupRet = some g') :
+    g.base.runner = .finished ∧ (∀ i, i < g.members → g.mret i = true) ∧ g'.base = g.base ∧ g'.groupRet = true := by
+  simp only [gstep] at hst
+  split at hst
+  · rename_i hg
+    cases hst
+    exact ⟨hg.2.1, (allMembersReturned_iff g).mp hg.2.2, rfl, rfl⟩
+  · simp at hst
+
+/-- so when the group has returned — the process is about to exit — every accepted connection is settled, exactly as at
+    the return of `Run` (I): closed, or never served -/
+theorem c11_group_returns_everything_settled {g : GState} (h : GReachable g) (hr : g.groupRet = true) (c : ConnId) :
+    connSettled (g.base.conns c) := by
+  have hf := (c11_group_returns_after_every_member h hr).1
+  have hst : step g.base .runRet = some g.base := by simp [step, hf]
+  exact c11_run_returns_everything_closed (ginv_reachable h).base hst c
+
+/-- a companion returns only after the context is done, and the proxy under a host is driven by `run` alone -/
+theorem c11_hosted_proxy_driven_by_run_only {g : GState} (h : GReachable g) :
+    g.base.api = false ∧ Reachable g.base :=
+  ⟨(ginv_reachable h).api, (ginv_reachable h).base⟩
+
+/-- THE FIRST SIGNAL DOES NOT END THE DRAIN: a signal delivered while the run context is not yet done — the one that
+    requests the shutdown — cancels the run context if it is one of `NotifySignals` and does nothing else: no context of
+    a `Shutdown` is touched (the grace-period context does not exist yet), no call of `Close` is made, no connection, no
+    socket, not `closing` -/
+theorem c11_first_signal_does_not_end_the_drain {g g' : GState} (h : GReachable g) (hr : g.base.runner = .idle) (n : Sig)
+    (hst : gstep g (.signal n) = some g') :
+    g'.base.shuts = g.base.shuts ∧ g'.base.closes = g.base.closes ∧ g'.base.conns = g.base.conns ∧
+    g'.base.closing = g.base.closing ∧ g'.graceHits = g.graceHits ∧
+    (n ∈ g.gsigs → g'.base.runner = .cancelled) ∧ (n ∉ g.gsigs → g'.base.runner = .idle) := by
+  have hi := ginv_reachable h
+  obtain ⟨f1, f2, f3, f4, f5, f6, _, _⟩ := groupRelay_fields g n
+  -- the run context of the relayed state is not past `Shutdown`: no context exists
+  have hrun : (groupRelay g n).runner = .idle ∨ (groupRelay g n).runner = .cancelled := by
+    rcases groupRelay_cases g n with h1 | h1
+    · rw [h1]; exact Or.inl hr
+    · rw [h1.2.2.2]; exact Or.inr rfl
+  have hidle : ((groupRelay g n).shuts (groupRelay g n).runShut).pc = .idle := by
+    have hc := ctxinv_reachable (groupRelay_reachable hi.base n)
+    cases hp : ((groupRelay g n).shuts (groupRelay g n).runShut).pc with
+    | idle => rfl
+    | _ =>
+      have := (hc.onlyS (by rw [show (ctl (groupRelay g n)).api = (groupRelay g n).api from rfl, f5]; exact hi.api)
+        (groupRelay g n).runShut (by rw [show (ctl (groupRelay g n)).shuts = (groupRelay g n).shuts from rfl, hp]; simp)).1
+      rw [show (ctl (groupRelay g n)).runner = (groupRelay g n).runner from rfl] at this
+      rcases hrun with h2 | h2 <;> rw [h2] at this <;> simp [runnerPast] at this
+  have hm : hitsGrace (groupRelay g n) n = false := by simp [hitsGrace, hidle]
+  simp only [gstep] at hst
+  cases hs : step (groupRelay g n) (.sig n (groupRelay g n).runShut) with
+  | none => rw [hs] at hst; simp at hst
+  | some b2 =>
+    rw [hs] at hst
+    simp only [Option.some.injEq] at hst
+    subst hst
+    have hb := sig_miss hs hm
+    subst hb
+    refine ⟨f1, f2, f3, f4, by simp [hm], fun hn => ?_, fun hn => ?_⟩
+    · simp [groupRelay, hn, step, hr, hi.api]
+    · simp [groupRelay, hn, hr]
+
+/-- AFTER EXACTLY ONE SIGNAL — no delivery has reached the relay of a live grace-period context — NO EXCHANGE IS CUT
+    BEFORE ITS RESPONSE OR THE GRACE DEADLINE: no context is cancelled; and as long as the shutdown timeout has not
+    passed either, `run` has not called `Close`, and no socket is closed under a handler (every closed socket was closed
+    by its own handler, after its response) -/
+theorem c11_without_second_signal_drain_not_cut {g : GState} (h : GReachable g) (hg : g.graceHits = 0) :
+    (∀ k, (g.base.shuts k).done ≠ some .cancel) ∧
+    ((g.base.shuts g.base.runShut).done ≠ some .deadline →
+      (∀ k, g.base.closes k = .idle) ∧
+      ∀ c, (g.base.conns c).sockClosed = true → selfClosed (g.base.conns c).pc = true) := by
+  have hi := ginv_reachable h
+  refine ⟨hi.grace hg, fun hd => ?_⟩
+  have hcl : ∀ k, g.base.closes k = .idle := by
+    intro k
+    cases hc : g.base.closes k with
+    | idle => rfl
+    | _ =>
+      have h1 := (ctxinv_reachable hi.base).onlyC hi.api k (by
+        rw [show (ctl g.base).closes k = g.base.closes k from rfl, hc]; simp)
+      have h2 := (inv_reachable hi.base).errCtx g.base.runShut (Or.inr h1.2.2)
+      obtain ⟨w, hw⟩ := Option.isSome_iff_exists.mp h2
+      cases w with
+      | deadline => exact absurd hw hd
+      | cancel => exact absurd hw (hi.grace hg _)
+  refine ⟨hcl, fun c hs => ?_⟩
+  cases hp : selfClosed (g.base.conns c).pc with
+  | true => rfl
+  | false =>
+    obtain ⟨k, hk⟩ := c11_socket_closed_under_handler_only_by_close hi.base c hs hp
+    rw [hcl k] at hk; cases hk
+
+-- the code: ONE signal (SIGUSR1 = 10 in both sets), the exchange at the origin completes in full, run returns, the
+-- companion returns, the group returns
+example : (grun (ginit false [10] [10] 1) (signalWithRequestAtOrigin ++ drainCompletes ++
+    [.memberRet 0, .groupRet])).map gview =
+    some (.finished, none, .waitingForLockUnreg, true, true) := by decide
+example : (grun (ginit false [10] [10] 1) (signalWithRequestAtOrigin ++ drainCompletes ++
+    [.memberRet 0, .groupRet])).map gview2 = some ([true], 0) := by decide
+-- the grace-period context cannot be cancelled by the signal that requested the shutdown
+example : (grun (ginit false [10] [10] 1) (signalWithRequestAtOrigin ++ [.base (.shutCtx 0)])).isSome = false := by decide
+-- … a SECOND one does it: Shutdown returns Canceled, run closes, the exchange is cut (the excused path)
+def secondSignalCut : List GAction :=
+  signalWithRequestAtOrigin ++ [.signal 10, .base (.shutCtx 0), .base (.shutUnlock 0),
+    .base (.runAfterShutdown 0), .base (.closeLock 0), .base (.closeCloseCh 0), .base (.closeConn 0 0), .base (.closeAll 0),
+    .base (.closeUnlock 0), .base .runAfterClose, .base .runRet, .memberRet 0, .groupRet]
+example : (grun (ginit false [10] [10] 1) secondSignalCut).map gview =
+    some (.finished, some .cancel, .awaitOrigin, true, true) := by decide
+example : (grun (ginit false [10] [10] 1) secondSignalCut).map gview2 = some ([], 1) := by decide
+-- the group cannot return while the proxy drains, whatever its companion did
+example : (grun (ginit false [10] [10] 1) (signalWithRequestAtOrigin ++ [.memberRet 0, .groupRet])).isSome = false := by decide
+-- … nor while a companion drains, the proxy having finished
+example : (grun (ginit false [10] [10] 2) (signalWithRequestAtOrigin ++ drainCompletes ++ [.memberRet 0, .groupRet])).isSome =
+    false := by decide
+-- a companion does not return before the shutdown is requested
+example : (grun (ginit false [10] [10] 1) [.memberRet 0]).isSome = false := by decide
+-- the proxy's signals go through the host; a signal outside the group's set requests nothing
+example : (grun (ginit false [10] [10] 1) [.base (.sig 10 0)]).isSome = false := by decide
+example : (grun (ginit false [10] [10] 1) [.signal 12]).map (fun g => (g.base.runner, g.delivered)) =
+    some (.idle, [12]) := by decide
+
+-- non-vacuity: a reachable hosted state in the drain after exactly one signal
+example : ∃ g, GReachable g ∧ g.graceHits = 0 ∧ g.base.runner = .inShutdown ∧ (g.base.conns 0).pc = .awaitOrigin := by
+  have hsome : (grun (ginit false [10] [10] 1) signalWithRequestAtOrigin).isSome = true := by decide
+  obtain ⟨g, hs⟩ := Option.isSome_iff_exists.mp hsome
+  have hv : (grun (ginit false [10] [10] 1) signalWithRequestAtOrigin).map
+      (fun g => (g.graceHits, g.base.runner, (g.base.conns 0).pc)) = some (0, .inShutdown, .awaitOrigin) := by decide
+  rw [hs] at hv
+  simp only [Option.map_some, Option.some.injEq, Prod.mk.injEq] at hv
+  exact ⟨g, greachable_grun (GReachable.start false [10] [10] 1) hs, hv.1, hv.2.1, hv.2.2⟩
+
+/-- after ONE signal: `Shutdown` takes its context branch, `run` closes, everybody returns -/
+def firstSignalCut : List GAction :=
+  signalWithRequestAtOrigin ++
+    [.base (.shutCtx 0), .base (.shutUnlock 0), .base (.runAfterShutdown 0), .base (.closeLock 0), .base (.closeCloseCh 0),
+     .base (.closeConn 0 0), .base (.closeAll 0), .base (.closeUnlock 0), .base .runAfterClose, .base .runRet,
+     .memberRet 0, .groupRet]
+
+/-- WITNESS for the "subscribe before serving" variant (`GVariant.subscribeAtRunStart`: `HTTPProxy.run` calls
+    `signal.NotifyContext(…, ShutdownSignals)` at its top and derives the grace-period context from it when the drain
+    begins): the ONE signal that requests the shutdown has cancelled the grace-period context before `Shutdown` is
+    called; `Shutdown` returns `Canceled` at its first `select`, `run` calls `Close`, and the exchange that was waiting
+    for its origin is cut — no second signal, no deadline.  Shutdown requested by cancelling the context (an embedder,
+    the existing tests) shows no difference. -/
+theorem c11_subscribe_at_run_start_variant_witness :
+    (grunV { subscribeAtRunStart := true } (ginit false [10] [10] 1) firstSignalCut).map gview =
+      some (.finished, some .cancel, .awaitOrigin, true, true) ∧
+    (grunV { subscribeAtRunStart := true } (ginit false [10] [10] 1) firstSignalCut).map gview2 = some ([], 0) ∧
+    -- the code: that continuation does not exist
+    (grun (ginit false [10] [10] 1) (signalWithRequestAtOrigin ++ [.base (.shutCtx 0)])).isSome = false ∧
+    -- requested by cancellation the variant drains like the code
+    (grunV { subscribeAtRunStart := true } (ginit false [10] [10] 1) ((openConn 0 ++ toOrigin 0 {}).map .base ++
+      [.base .cancel, .base .runCloseListeners, .base (.runShutdown 0), .base (.shutLock 0), .base (.shutCloseCh 0),
+       .base (.shutPoll 0), .base (.shutCtx 0)])).isSome = false := by
+  refine ⟨by decide, by decide, by decide, by decide⟩
+
+/-- the statement of `c11_without_second_signal_drain_not_cut` for that variant (its first part) -/
+def c11_subscribe_at_run_start_variant_full : Prop :=
+  ∀ (as : List GAction) (g : GState), grunV { subscribeAtRunStart := true } (ginit false [10] [10] 1) as = some g →
+    g.graceHits = 0 → (g.base.shuts 0).done ≠ some .cancel
+
+/-- … is FALSE -/
+theorem c11_subscribe_at_run_start_variant_full_false : ¬ c11_subscribe_at_run_start_variant_full := by
+  intro h
+  have hsome : (grunV { subscribeAtRunStart := true } (ginit false [10] [10] 1) signalWithRequestAtOrigin).isSome = true := by
+    decide
+  obtain ⟨g, hs⟩ := Option.isSome_iff_exists.mp hsome
+  have hv : (grunV { subscribeAtRunStart := true } (ginit false [10] [10] 1) signalWithRequestAtOrigin).map
+      (fun g => (g.graceHits, (g.base.shuts 0).done)) = some (0, some .cancel) := by decide
+  rw [hs] at hv
+  simp only [Option.map_some, Option.some.injEq, Prod.mk.injEq] at hv
+  exact h _ g hs hv.1 hv.2
+
+/-- WITNESS for the "collect loop leaves at the first error" variant (`GVariant.returnAtFirstMember`: `RunContext`
+    without `errgroup`, `for range g.funcs { if err = <-errc; err != nil { cancel(); break } }`): the shutdown is
+    requested, the companion with nothing to drain returns `ctx.Err()`, and `RunContext` returns — the process exits —
+    while `HTTPProxy.run` has not even called `Shutdown`: the request is at its origin, the socket open.  In the code
+    that return is not enabled. -/
+theorem c11_return_at_first_member_variant_witness :
+    (grunV { returnAtFirstMember := true } (ginit false [10] [10] 1) ((openConn 0 ++ toOrigin 0 {}).map .base ++
+      [.signal 10, .memberRet 0, .groupRet])).map gview =
+      some (.cancelled, none, .awaitOrigin, false, true) ∧
+    (grun (ginit false [10] [10] 1) ((openConn 0 ++ toOrigin 0 {}).map .base ++
+      [.signal 10, .memberRet 0, .groupRet])).isSome = false ∧
+    -- a group of ONE member (the PAC server) behaves like the code
+    (grunV { returnAtFirstMember := true } (ginit false [10] [10] 0) ((openConn 0 ++ toOrigin 0 {}).map .base ++
+      [.signal 10, .groupRet])).isSome = false := by
+  refine ⟨by decide, by decide, by decide⟩
+
+/-- the statement of `c11_group_returns_after_every_member` for that variant -/
+def c11_return_at_first_member_variant_full : Prop :=
+  ∀ (as : List GAction) (g : GState), grunV { returnAtFirstMember := true } (ginit false [10] [10] 1) as = some g →
+    g.groupRet = true → g.base.runner = .finished
+
+/-- … is FALSE -/
+theorem c11_return_at_first_member_variant_full_false : ¬ c11_return_at_first_member_variant_full := by
+  intro h
+  have hsome : (grunV { returnAtFirstMember := true } (ginit false [10] [10] 1) ((openConn 0 ++ toOrigin 0 {}).map .base ++
+      [.signal 10, .memberRet 0, .groupRet])).isSome = true := by decide
+  obtain ⟨g, hs⟩ := Option.isSome_iff_exists.mp hsome
+  have hv : (grunV { returnAtFirstMember := true } (ginit false [10] [10] 1) ((openConn 0 ++ toOrigin 0 {}).map .base ++
+      [.signal 10, .memberRet 0, .groupRet])).map (fun g => (g.groupRet, g.base.runner)) = some (true, .cancelled) := by decide
+  rw [hs] at hv
+  simp only [Option.map_some, Option.some.injEq, Prod.mk.injEq] at hv
+  have := h _ g hs hv.1
+  rw [hv.2] at this
+  cases this
 
 end C11
 end FwdVerif
